@@ -39,3 +39,4 @@ def run(ctx: Ctx):
     frames.right_handed_and_anchored(ctx, "R1.1h", "R1.1a")
     exmap.r1_2(ctx)
     exmap.r1_3(ctx)
+    exmap.r1_4(ctx)
